@@ -97,10 +97,14 @@ pub fn run(rep: &mut Report) {
         let light: Vec<usize> = sorted[..(sorted.len() / 2).max(1)].to_vec();
         let p_heavy = c.spec.wa[heavy] / suma;
         let p_light: f64 = light.iter().map(|&i| c.spec.wa[i]).sum::<f64>() / suma;
+        // cost model of one trial (two sketches): every item is hashed, and about m (1 + ln(n)) points reach the registers
+        let cost = 2. * (60. * n as f64 + 25. * c.m as f64 * (1. + (n as f64).ln()));
+        let budget: f64 = rep.tier.pick(6e8, 1.2e10);
+        let tt = ((budget / cost) as u64).clamp(2000, t1);
         let degenerate = j <= 1e-12 || j >= 1. - 1e-9;
         let jt = if j >= 1. - 1e-9 { 1. } else if j <= 1e-12 { 0. } else { j };
         // a statistic is tested only when enough non-degenerate trials are expected at stage 1 (else recorded only)
-        let enough = |p: f64| (t1 as f64) * (c.m as f64 * p.min(1. - p)).min(1.) >= 400.;
+        let enough = |p: f64| (tt as f64) * (c.m as f64 * p.min(1. - p)).min(1.) >= 400.;
         let mut targets = vec![
             Target::new("collision_fraction", jt, if degenerate { Kind::Exact } else if enough(jt) { Kind::TwoSided } else { Kind::Info }),
             Target::new("squared_error", jt * (1. - jt) / c.m as f64, if degenerate { Kind::Exact } else if enough(jt) { Kind::Upper } else { Kind::Info }),
@@ -110,7 +114,7 @@ pub fn run(rep: &mut Report) {
         targets.push(Target::new("occupancy_light_half", p_light, light_kind));
         let ph = 0u64;
         let seed = subseed(rep.seed, "C01/trials", &[ci as u64]);
-        let (rs, trials) = staged(seed, t1, 3, &targets, |rng, out| {
+        let (rs, trials) = staged(seed, tt, 3, &targets, |rng, out| {
             let ids = fresh_ids(rng, n, ph);
             let mut a: Vec<(u64, f64)> = ia.iter().map(|&i| (ids[i], c.spec.wa[i])).collect();
             let mut b: Vec<(u64, f64)> = ib.iter().map(|&i| (ids[i], c.spec.wb[i])).collect();
